@@ -566,25 +566,26 @@ def positions(repo: Repo, rep, P: str):
     rep.count("reader_attach_sites", n_sites, 2)
     # under loading, attach_module only appends
     proj = repo.cls("Project", module="rv.project")
-    fn = repo.own_method(proj, "attach_module")
+    from . import c14 as _c14
+    fn = _c14._nm(repo, proj, "attach_module")
     g = CFG(fn)
     prel = proj.file.rel
+    if _c14._value_tests(fn, set()):
+        rep.inconclusive(f"{P}.R4", f"{prel}:Project.attach_module", "; ".join(sorted(set(_c14._value_tests(fn, set()))))[:160],
+                         "attach_module decides on computed values; placement under loading=True not derivable from path conditions",
+                         f"{prel}:{fn.lineno}")
+        return
     params = [a.arg for a in fn.args.args if a.arg != "self"]
     lp = params[1] if len(params) > 1 else "loading"
     paths = g.paths(g.entry, [g.exit], max_visits=1, limit=5000, labels_excluded={"exc", "reraise", "nomatch"}) or []
     bad = None
+    from . import c14
+    from .. import guards
+    not_loading = guards.canon_text(f"not {lp}")
     for path in paths:
-        loading_true = True
-        for nid, lab in path:
-            node = g.nodes[nid]
-            if node.kind == "test" and lp in norm(node.ast):
-                # `not loading and X` taken true ⇒ loading is False on this path
-                t = norm(node.ast)
-                if t.startswith(f"not {lp}") and lab == "true":
-                    loading_true = False
-                if t == lp and lab == "false":
-                    loading_true = False
-        if not loading_true:
+        # a path on which `not loading` is established is not a loading path
+        known = c14._facts(c14._path_tests(g, path))
+        if not_loading in known:
             continue
         for nid, lab in path:
             node = g.nodes[nid]
